@@ -964,6 +964,9 @@ func (t *Term) dispatchOSC() {
 			t.Pen.LinkID = ""
 		}
 	case "12":
+		if !validColorSpec(rest) {
+			t.err("OSC 12 with a malformed colour specification %q", rest)
+		}
 		t.CursorColor = rest
 	case "112":
 		t.CursorColor = ""
@@ -977,3 +980,46 @@ func (t *Term) dispatchOSC() {
 // InString reports whether the parser is in the middle of a control sequence or
 // multi-byte character (a Write block must end in the ground state).
 func (t *Term) InString() bool { return t.st != stGround || len(t.pending) > 0 }
+
+// validColorSpec: the forms xterm's OSC 10-19 accept that tcell can produce: #rgb .. #rrrrggggbbbb,
+// rgb:h/h/h (1-4 hex digits each), a colour name (letters and digits only) or "?" (query).
+func validColorSpec(s string) bool {
+	hex := func(s string) bool {
+		if s == "" {
+			return false
+		}
+		for _, c := range s {
+			if !((c >= '0' && c <= '9') || (c >= 'a' && c <= 'f') || (c >= 'A' && c <= 'F')) {
+				return false
+			}
+		}
+		return true
+	}
+	switch {
+	case s == "?":
+		return true
+	case strings.HasPrefix(s, "#"):
+		h := s[1:]
+		return hex(h) && (len(h) == 3 || len(h) == 6 || len(h) == 9 || len(h) == 12)
+	case strings.HasPrefix(s, "rgb:"):
+		parts := strings.Split(s[4:], "/")
+		if len(parts) != 3 {
+			return false
+		}
+		for _, p := range parts {
+			if !hex(p) || len(p) > 4 {
+				return false
+			}
+		}
+		return true
+	}
+	if s == "" {
+		return false
+	}
+	for _, c := range s {
+		if !((c >= 'a' && c <= 'z') || (c >= 'A' && c <= 'Z') || (c >= '0' && c <= '9') || c == ' ') {
+			return false
+		}
+	}
+	return true
+}
